@@ -1215,8 +1215,42 @@ def gen_simulate_options_cross():
     return out
 
 
+SEQ_VARS = ["a", "T1", "T2"]
+SEQ_UNKNOWN = ["foo", "T3", "alpha", "Magnitude", "b1"]
+
+
+def gen_derivative_requests(rng, n):
+    """jacobian / hessian / crlb(gradient=) / simulate / build requests: names of the sequence, 'magnitude',
+    and an unknown name at any position of either list -- also when its only partners are 'magnitude'"""
+    out = []
+    for i in range(n):
+        via = rng.choice(["hessian", "hessian", "hessian", "crlb_gradient", "simulate_order2", "build_order2", "jacobian"])
+        pick = lambda: rng.sample(SEQ_VARS + ["magnitude"], rng.randint(1, 3))
+        only_mag = lambda: ["magnitude"]
+        v1 = rng.choice([pick, pick, only_mag])()
+        v2 = rng.choice([pick, pick, only_mag])()
+        where = rng.choice(["first", "second", "second", "both", "none", "none"])
+        if via == "jacobian":
+            v2 = []
+            where = rng.choice(["first", "none"])
+        if where in ("first", "both"):
+            v1 = list(v1)
+            v1.insert(rng.randrange(len(v1) + 1), rng.choice(SEQ_UNKNOWN))
+        if where in ("second", "both"):
+            v2 = list(v2)
+            v2.insert(rng.randrange(len(v2) + 1), rng.choice(SEQ_UNKNOWN))
+        partners = "magnitude_only" if (where == "second" and set(v1) == {"magnitude"}) or \
+            (where == "first" and v2 and set(v2) == {"magnitude"}) else "mixed"
+        if via == "crlb_gradient" and where == "none" and (len(v1) != 1 or v1 == ["magnitude"]):
+            via = "hessian"        # one echo cannot identify several unknowns (singular Fisher matrix): not a validation matter
+        exp = "valid" if where == "none" else "invalid"
+        variant = "derivatives_%s_unknown_%s_partners_%s" % (via, where, partners)
+        out.append(case("sequence", variant, {"call": "seq_derivatives", "via": via, "v1": v1, "v2": v2}, exp))
+    return out
+
+
 def gen_sequence(rng, n):
-    out = gen_simulate_options_cross()
+    out = gen_simulate_options_cross() + gen_derivative_requests(rng, n)
     for i in range(n):
         kind = rng.choice(["no_probe", "no_probe", "nonop", "nonop", "valid", "valid", "modify",
                            "seq_check", "seq_missing", "seq_missing", "seq_unknown", "seq_extra", "seq_valid"])
@@ -1351,6 +1385,27 @@ def build_sequence(spec, QK):
         flags.insert(spec["pos"], False)
         return (lambda: sq.Sequence(ops)), "seq_check_ok %s" % core.clist([core.coq_bool(b) for b in flags])
     vals = {"a": 30.0, "T1": 100.0, "T2": 10.0, "foo": 1.0}
+    if call == "seq_derivatives":
+        seq = sq.Sequence(ops)
+        v1, v2, via = spec["v1"], spec["v2"], spec["via"]
+        allv = {k: vals[k] for k in SEQ_VARS}
+        pairs = sorted({tuple(sorted((x, y))) for x in v1 for y in v2})
+        o1 = list(v1)
+        if via == "jacobian":
+            thunk = lambda: seq.jacobian(v1)(**allv)
+        elif via == "hessian":
+            thunk = lambda: seq.hessian(v1, v2)(**allv)
+        elif via == "crlb_gradient":
+            thunk = lambda: seq.crlb(v1, gradient=v2)(**allv)
+        elif via == "simulate_order2":
+            thunk = lambda: seq.simulate(allv, order2=pairs)
+            o1 = []
+        else:
+            thunk = lambda: seq.build(allv, order2=pairs)
+            o1 = []
+        term = "seq_build_ok %s %s %s %s" % (stl(SEQ_VARS), stl(o1), core.clist([pair(st(x), st(y)) for x, y in pairs]),
+                                              stl(SEQ_VARS))
+        return thunk, term
     values = {k: vals[k] for k in spec["given"]}
     seq = sq.Sequence(ops)
     o1, o2 = spec["o1"], spec["o2"]
